@@ -32,6 +32,7 @@ THEOREMS = [
     "OQuPyVerif.Props.C13.tebd_history_grid",
     "OQuPyVerif.Props.C13.cd_num_steps_given", "OQuPyVerif.Props.C13.cd_num_steps_default",
     "OQuPyVerif.Props.C13.cd_num_steps_too_long",
+    "OQuPyVerif.Props.C13.live_reads_current", "OQuPyVerif.Props.C13.dynamics_views_current",
 ]
 
 DT_LITS = ["0.1", "0.01", "0.2", "0.05", "0.025", "0.3", "0.001", "0.07", "0.4", "0.125", "1.5", "0.06"]
@@ -210,6 +211,17 @@ def correspondence(res, tier, rng):
         obj = oq.cheap_tempo(s, d) if api == "tempo" else oq.cheap_mft(s, d)
         for t in targets:
             dyn = obj.compute(t, progress_type="silent")
+            # read the views between the calls, as a user following a long run does
+            views = [dyn.system_dynamics[0]] if api == "mft" else [dyn]
+            for vw in views:
+                if len(vw.states) != len(vw.times) or len(vw.times) != len(vw):
+                    res.disagree("after compute(%r): %d times but %d states handed out"
+                                 % (t, len(vw.times), len(vw.states)),
+                                 {"api": api, "start_time": s, "dt": d, "targets": targets})
+            if api == "mft" and len(dyn.fields) != len(dyn.times):
+                res.disagree("after compute(%r): %d times but %d fields handed out"
+                             % (t, len(dyn.times), len(dyn.fields)),
+                             {"api": api, "start_time": s, "dt": d, "targets": targets})
         times = [float(x) for x in dyn.times]
         add("hist %s %s %s %s" % (api, rat(s), rat(d), " ".join(rat(t) for t in targets)),
             "%d;%s;%s" % (obj._backend_instance.step, " ".join(rat(t) for t in times),
@@ -472,6 +484,44 @@ def search(res, rng=None):
                      {"api": "PtTebd.compute", "start_time": s, "dt": d, "start_step": ks,
                       "end_steps": ends, "expected_final_step": top, "got_final_step": step,
                       "expected_times": want, "got_times": got})
+    # (2d) views read between two compute calls: the states handed out afterwards are those of
+    #      the whole history, aligned with the times
+    for api in ("tempo", "mft", "tebd"):
+        if api == "tebd":
+            import oqupy as _o
+            chain = _o.SystemChain(hilbert_space_dimensions=[2, 2])
+            chain.add_site_hamiltonian(site=0, hamiltonian=op.sigma("z"))
+            chain.add_nn_hamiltonian(site=0, hamiltonian_l=op.sigma("x"), hamiltonian_r=op.sigma("x"))
+            up = op.spin_dm("z+")
+
+            def mk():
+                return _o.PtTebd(initial_augmented_mps=_o.AugmentedMPS([up, up]), system_chain=chain,
+                                 process_tensors=[None, None],
+                                 parameters=_o.PtTebdParameters(dt=0.1, order=1, epsrel=1.0e-6),
+                                 dynamics_sites=[0], start_time=0.0)
+            a = mk()
+            r1 = a.compute(end_step=3, progress_type="silent")
+            _ = r1["dynamics"][0].states
+            r2 = a.compute(end_step=6, progress_type="silent")
+            got_t, got_s = r2["dynamics"][0].times, r2["dynamics"][0].states
+            ref = mk().compute(end_step=6, progress_type="silent")["dynamics"][0]
+        else:
+            mkobj = (lambda: oq.cheap_tempo(0.0, 0.1)) if api == "tempo" else (lambda: oq.cheap_mft(0.0, 0.1))
+            a = mkobj()
+            d1 = a.compute(0.3, progress_type="silent")
+            _ = (d1.system_dynamics[0] if api == "mft" else d1).states
+            d2 = a.compute(0.6, progress_type="silent")
+            v2 = d2.system_dynamics[0] if api == "mft" else d2
+            got_t, got_s = v2.times, v2.states
+            dr = mkobj().compute(0.6, progress_type="silent")
+            ref = dr.system_dynamics[0] if api == "mft" else dr
+        bad = len(got_t) != len(got_s) or len(got_s) != len(ref.states) or \
+            float(np.abs(np.array(got_s) - np.array(ref.states)).max()) > 1e-9
+        if bad:
+            res.fail("views:%s states read between two compute calls" % api,
+                     {"api": api, "sequence": "compute(3 steps); read .states; compute(6 steps); read "
+                      ".times and .states", "times_handed_out": len(got_t),
+                      "states_handed_out": len(got_s), "expected": len(ref.states)})
     # (3) real objects: times of Tempo / MFT histories are the grid, sorted, aligned
     for api in ("tempo", "mft"):
         for (s_l, d_l, ms) in [("0.0", "0.1", [3, 2, 5]), ("0.5", "0.2", [2, 4]), ("-0.3", "0.05", [6])]:
